@@ -141,6 +141,7 @@ QJsonObject generate()
     c["func"] = funcs[pick(0, 4)];
     if (chance(60)) genSignature(c);
     c["line"] = chance(80) ? pick(0, 99999) : -pick(0, 5);
+    if (chance(15)) { StrOpts po; po.maxLen = 8; po.allowZwsp = so.allowZwsp; c["pre"] = strToJson(genString(po, &used)); } // already formatted by an earlier formatter
     QJsonArray attrs;
     for (auto n : kAttrNames) {
         if (!chance(50)) continue;
@@ -201,6 +202,7 @@ std::string run(const QJsonObject &c)
         else if (kind == "i") { lm.setAttribute(name, a[2].toInt()); m.attrs[name] = QString::number(a[2].toInt()); }
         else { lm.setAttribute(name, a[2].toBool()); m.attrs[name] = a[2].toBool() ? "true" : "false"; }
     }
+    if (c.contains("pre")) { lm.setFormattedMessage(strFromJson(c["pre"])); cls("message_already_formatted_by_an_earlier_formatter", true); }
     m.typeIdx = typeIdx;
     m.text = text;
     m.category = QString::fromLatin1(cat);
